@@ -72,8 +72,10 @@ def run(shard, rec):
                 case = [shard['name'], pi, policy, sseed]
                 if not rec.wants(case):
                     continue
-                w = runner.run_spec(m, t, no_prss, spec, policy, sseed)
+                nb = pi % 5 == 3             # some programs run with barriers disabled (--no-barrier)
+                w = runner.run_spec(m, t, no_prss, spec, policy, sseed, world_kwargs={'no_barrier': nb})
                 rec.count('runs')
+                rec.count('runs_no_barrier', int(nb))
                 nmsg = sum(len(w.frames(i, j)[0]) for (i, j) in w.conns)
                 early = sum(1 for r in w.recv_log if r[3])
                 rec.count('receive_after_arrival', early)
